@@ -58,6 +58,7 @@ def do_run(ids, tier='quick', all_checks=False):
         d = os.path.join(SEEDED, sid)
         if not os.path.exists(os.path.join(d, 'patch.diff')): continue
         meta = json.load(open(os.path.join(d, 'meta.json')))
+        if meta.get('retired'): print(sid, 'retired:', meta['retired'][:80]); summary[sid] = 'retired'; continue
         rc, out = sh('git status --porcelain', cwd=REPO)
         assert out.strip() == '', '/repo not clean: ' + out
         rc, out = sh(f'git apply {os.path.join(d, "patch.diff")}', cwd=REPO)
